@@ -9,9 +9,9 @@ OPS = {"arr_acc": [None], "arr_rej": [None], "arr_unbound_symbolic": [None], "du
        "pytree_flatten": [None, "exc", "base"], "pytree_flatten_structured": [None, "exc", "base"], "pytree_leaf": [None, "exc", "base"], "pytree_leaf_structured": [None, "exc", "base"],
        "pytree_annotation_error": [None], "pytree_reject_structured": [None], "pytree_question_leaf": [None], "pytree_symbolic_fault": [None, "exc", "base"], "symbolic_fault": [None, "exc", "base"],
        "call_body": [None, "exc", "base"], "call_body_old": [None, "exc", "base"], "call_illtyped": [None], "call_pytree_arg_fault": [None, "exc", "base"], "call_checker_fault": [None, "exc", "base"],
-       "context_block_fault": [None, "exc", "base"], "old_style_generator": [None], "old_style_generator_twin": [None], "reentered_context_object": [None, "exc", "base"], "decorate_inside_call": [None, "exc", "base"], "generator_suspended": [None, "exc", "base"], "generator_handed_over": [None], "concurrent_flatten": [None], "decorate_other": [None], "pickle": [None], "hook": [None]}
+       "context_block_fault": [None, "exc", "base"], "old_style_generator": [None], "old_style_generator_twin": [None], "reentered_context_object": [None, "exc", "base"], "decorate_inside_call": [None, "exc", "base"], "pytree_union_other_order": [None], "struct_dtype_other_spelling": [None], "generator_suspended": [None, "exc", "base"], "generator_handed_over": [None], "concurrent_flatten": [None], "decorate_other": [None], "pickle": [None], "hook": [None]}
 EXPECT = {"path": None, "flat": False, "depth": 0, "bindings": "", "P1_wrong_dtype_rejected": False, "P2_question_outside_raises": "AnnotationError", "P3_structured_pytree": True,
-          "P4_alias_rejects_wrong_dtype": False, "P5_alias_rejects_wrong_rank": False, "P6_stateless_toplevel": [True, True], "P7_early_function_rejects_wrong_dtype": "X:TypeCheckError"}
+          "P4_alias_rejects_wrong_dtype": False, "P5_alias_rejects_wrong_rank": False, "P6_stateless_toplevel": [True, True], "P7_early_function_rejects_wrong_dtype": "X:TypeCheckError", "P8_union_members_in_written_order": [True, False, True], "P9_struct_dtype_exact_spelling": [True, False]}
 
 
 def main():
